@@ -487,3 +487,47 @@ Proof.
       try (unfold w0, bump; cbn [wuw ufuse]; exact Hfuse);
       try (unfold uevents, drop_ev; rewrite Hdg; unfold w0, bump; cbn [wuw ulog filter is_user_event rev app]; reflexivity).
 Qed.
+
+(** ** a lazy clone of an element, downcast: one Clone, the vector untouched *)
+Lemma exec_lazy_down c w st d v idx r :
+  cfg_wf c -> WRep c w st -> ufuse (wuw w) = None ->
+  sp_lazy_down c st (unext (wuw w)) v idx = Some r ->
+  res_matches c w (exec c (OLazyDown d v idx) w) r.
+Proof.
+  intros Hwf HW Hfuse Hr. unfold sp_lazy_down in Hr.
+  destruct (get_a v st) as [bv|] eqn:Hgb; [|discriminate].
+  destruct (wrep_get c w st v bv HW Hgb) as (vb & Hgvb & HVb).
+  pose proof (vi_rep _ _ _ HVb) as HRb. pose proof (rep_len _ _ _ HRb) as Hlb.
+  cbn [exec]. unfold Interp.elem_bytes.
+  unfold bind at 1. unfold bind at 1. rewrite (peek_vec_ok v w vb Hgvb).
+  unfold bind at 1. unfold assert_. rewrite Hlb.
+  destruct (N.ltb_spec idx (N.of_nat (length (a_xs bv)))) as [Hlt|Hge].
+  2:{ injection Hr as <-. unfold raise.
+      cbn [res_matches panic_res s_out s_pk s_ret s_st s_evs s_nx].
+      split; [reflexivity|split; [reflexivity|split; [reflexivity|]]]. rewrite N.sub_diag.
+      apply step_ok_refl; assumption. }
+  set (j := N.to_nat idx). assert (Hj : (j < length (a_xs bv))%nat) by (unfold j; lia).
+  assert (Ej : idx = N.of_nat j) by (unfold j; lia).
+  set (t0 := nth j (a_xs bv) 0) in *.
+  unfold ret at 1. rewrite Ej.
+  rewrite (on_vec_ok v _ w vb _ vb (wuw w) Hgvb (read_elem c vb (wuw w) (a_xs bv) j HRb Hj)).
+  set (w1 := put_vec v (Some vb) (wuw w) w).
+  assert (HW1 : WRep c w1 st) by (apply (wrep_put_same c w st v vb bv); assumption).
+  assert (Hg1 : get_vec v w1 = Some vb) by apply get_vec_put_same.
+  rewrite Ej, Nat2N.id in Hr. injection Hr as <-.
+  unfold ret at 1. cbv zeta. unfold lazy_down, decode. subst t0. rewrite (dec_enc _ _ (elem_tok c vb bv j HVb Hj)).
+  unfold bind, ret.
+  rewrite (on_vec_ok v _ w1 vb tt vb (wuw w1) Hg1 (user_call_ok vb (wuw w1) Hfuse)).
+  set (w2 := put_vec v (Some vb) (wuw w1) w1).
+  assert (HW2 : WRep c w2 st) by (apply (wrep_put_same c w1 st v vb bv); assumption).
+  unfold freshw, emitw, harness_drop, ret. fold (tok c (unext (wuw w2))).
+  assert (Hnx : unext (wuw w2) = unext (wuw w)) by reflexivity. rewrite Hnx.
+  cbn [res_matches ok_res s_out s_pk s_ret s_st s_evs s_nx].
+  destruct (c_dg c) eqn:Hdg; unfold emitw; cbn [wv wuw];
+    (split; [reflexivity|split; [reflexivity|split; [reflexivity|]]]).
+  all: constructor; cbn [wv wuw unext ufuse emit].
+  all: try (intros n; apply HW2).
+  all: try exact Hfuse.
+  all: try (cbn [s_nx ok_res]; lia).
+  all: unfold uevents, drop_ev; rewrite Hdg; cbn; reflexivity.
+Qed.
